@@ -302,6 +302,7 @@ def inprocOne : Judge := liftJudge fun input obs => do
           | some a => wantAcks := wantAcks ++ [a]
           | none => pure ()
           if !limiterOK then acc := acc.tag "inbound:limited"
+          if optBool (((getArr ev "pubs").toOption.getD #[]).toList.getD 0 Json.null) "dup" then acc := acc.tag "inbound:dup-flag"
           if v == .drop then acc := acc.tag "inbound:pipeline-drop"
         pubSeen := alSet c seen pubSeen
         let gotAcks := ((getIntList so "acks").toOption.getD []).map Int.toNat
@@ -317,6 +318,12 @@ def inprocOne : Judge := liftJudge fun input obs => do
         if gotPipe != wantPipe then
           acc := acc.dis s!"event {i-1} client {c}: pipeline saw {gotPipe}, model {wantPipe}"
           acc := acc.fail "inbound:pipeline-mismatch" s!"event {i-1} client {c}: pipeline saw {gotPipe}, expected {wantPipe}"
+    else if k == "refill" then
+      -- the publish limiter's period has elapsed: it admits `limit` publishes again
+      let c := optStr ev "c"
+      if real.contains c && limit > 0 then
+        pubSeen := alSet c 0 pubSeen
+        acc := acc.tag "inbound:limiter-refilled"
     else if k == "resume" then
       -- a persistent client's connection ends normally and it reconnects with cleanSession=false WITHOUT
       -- re-subscribing: its live subscriptions (filter and QoS, the abstract set `subs`) must be routed again;
